@@ -34,6 +34,15 @@ def cmd_check(args) -> int:
         cfg["wall_cap"] = args.wall
     procs = args.procs or min(16, os.cpu_count() or 1)
     mod = runner.load(prop)
+    if tier == "thorough" and not os.environ.get("VERIF_SKIP_SELFTEST"):
+        # prove the simulator deterministic on this machine before believing a long batch
+        from . import selftest
+
+        rc = selftest.determinism(prop, 64)
+        os.environ["VERIF_DETERMINISM_SELFTEST"] = "64 seeds x fresh interpreters x hash seeds + 16-process batch: " + ("ok" if rc == 0 else "MISMATCH")
+        if rc != 0:
+            print(f"HARNESS-ERROR property={prop}: determinism self-test failed; batch not run")
+            return 2
     print(f"[{prop}] tier={tier} VERIF_SEED={seed} planned_runs={cfg['runs']} procs={procs} repo={runner.repo_root()}", flush=True)
     if hasattr(mod, "batch"):
         return mod.batch(tier, seed, cfg, procs)
